@@ -200,7 +200,11 @@ func c04RunBuy(env world.Env, g c04Group, b c04Buy) (vs []mc.Viol, class string)
 	msg.Referral = refStr
 	res := env.Deliver(msg)
 	ctx = env.Ctx()
-	d := world.BalDiff(before, w.Balances(ctx))
+	afterBal := w.Balances(ctx)
+	if _, bad := afterBal[world.BalancesUnreadable]; bad {
+		return []mc.Viol{viol("no-other-balance-changes", "balances-unreadable", "after the payment the bank module can no longer walk its balances (%s): tokens were credited to an address it cannot decode", w.BalancesPanic)}, "accepted/corrupt-balances"
+	}
+	d := world.BalDiff(before, afterBal)
 	pol, _ := jkltypes.GetPOLAccount()
 	feeColl := authtypes.NewModuleAddress(authtypes.FeeCollectorName).String()
 	stMod := modAddr(storagetypes.ModuleName).String()
@@ -337,7 +341,11 @@ func c04RunPayOnce(env world.Env, g c04Group, total int64, expiryBlocks int64, s
 	msg.Expires = ctx.BlockHeight() + expiryBlocks
 	res := env.Deliver(msg)
 	ctx = env.Ctx()
-	d := world.BalDiff(before, w.Balances(ctx))
+	afterBal := w.Balances(ctx)
+	if _, bad := afterBal[world.BalancesUnreadable]; bad {
+		return []mc.Viol{viol("no-other-balance-changes", "balances-unreadable", "after the payment the bank module can no longer walk its balances (%s): tokens were credited to an address it cannot decode", w.BalancesPanic)}, "accepted/corrupt-balances"
+	}
+	d := world.BalDiff(before, afterBal)
 	stMod := modAddr(storagetypes.ModuleName).String()
 	labels := map[string]string{stMod: "storage-module"}
 	if !w.App.BankKeeper.GetSupply(ctx, "ujkl").Amount.Equal(supBefore) {
